@@ -341,7 +341,9 @@ func (st *e2eState) newError() error {
 			}
 			e.AddDetail(a)
 		}
-		addAll(e.Meta(), o.Meta)
+		if len(o.Meta) > 0 { // (an error without metadata keeps its nil map: Meta() allocates, i.e. writes to the value)
+			addAll(e.Meta(), o.Meta)
+		}
 		if o.Kind == "wrapped" {
 			return fmt.Errorf("outer context: %w", e)
 		}
@@ -952,6 +954,14 @@ func runE2E(raw json.RawMessage, seed int64, rec *Rec) {
 			metaCall = "own"
 		default:
 			metaCall = "foreign"
+		}
+	}
+	// C13 "shared values stay intact": a sentinel error without metadata that the handler returned is still without a
+	// metadata map -- the library reads the value, it does not write to it (not even an empty map)
+	if sc.Shared && sc.Out.Kind == "err" && len(sc.Out.Meta) == 0 {
+		var sentinel *connect.Error
+		if errors.As(st.buildError(), &sentinel) && connect.VerifErrorMetaAllocated(sentinel) {
+			metaCall = "sentinel-written"
 		}
 	}
 	if sc.Peer == "client" {
